@@ -358,8 +358,15 @@ func TestC08_Builders(t *testing.T) {
 			for _, v := range vals {
 				lps = append(lps, patchFromConstructor(t, v.(map[string]interface{})))
 			}
+			ufrom, uuntil := int64(0), int64(0)
+			if rapid.IntRange(0, 2).Draw(t, "updateWindow") == 0 {
+				ufrom = int64(rapid.IntRange(1, 50).Draw(t, "ufrom"))
+				if rapid.Bool().Draw(t, "uuntil") {
+					uuntil = ufrom + int64(rapid.IntRange(0, 50).Draw(t, "ulen"))
+				}
+			}
 			ui := &client.UpdateRequestInfo{DidSuffix: suffix, Patches: lps, UpdateCommitment: libCommitment(t, next, alg), UpdateKey: libJWKOf(t, upd),
-				MultihashCode: alg, Signer: signerOf(upd), RevealValue: upd.Reveal(alg)}
+				MultihashCode: alg, Signer: signerOf(upd), RevealValue: upd.Reveal(alg), AnchorFrom: ufrom, AnchorUntil: uuntil}
 			ur, err := client.NewUpdateRequest(ui)
 			if err != nil {
 				t.Fatalf("C08 NewUpdateRequest refused valid input: %v", err)
@@ -368,7 +375,7 @@ func TestC08_Builders(t *testing.T) {
 			if err != nil {
 				t.Fatalf("harness: %v", err)
 			}
-			steps = append(steps, lifecycleStep{typ: "update", req: ur, doc: ndoc, updateC: next.Commitment(alg), recovC: rec.Commitment(alg)})
+			steps = append(steps, lifecycleStep{typ: "update", req: ur, doc: ndoc, updateC: next.Commitment(alg), recovC: rec.Commitment(alg), from: ufrom, until: uuntil})
 			badU := *ui
 			badU.UpdateCommitment = libCommitment(t, upd, alg)
 			if _, err := client.NewUpdateRequest(&badU); err == nil {
@@ -377,11 +384,19 @@ func TestC08_Builders(t *testing.T) {
 			upd, cur = next, ndoc
 		}
 		// deactivate
-		dr, err := client.NewDeactivateRequest(&client.DeactivateRequestInfo{DidSuffix: suffix, RecoveryKey: libJWKOf(t, rec), Signer: signerOf(rec), RevealValue: rec.Reveal(alg)})
+		dfrom, duntil := int64(0), int64(0)
+		if rapid.IntRange(0, 2).Draw(t, "deactivateWindow") == 0 {
+			duntil = int64(rapid.IntRange(1, 90).Draw(t, "duntil"))
+			if rapid.Bool().Draw(t, "dfrom") {
+				dfrom = int64(rapid.IntRange(1, int(duntil)).Draw(t, "dfromv"))
+			}
+		}
+		dr, err := client.NewDeactivateRequest(&client.DeactivateRequestInfo{DidSuffix: suffix, RecoveryKey: libJWKOf(t, rec), Signer: signerOf(rec), RevealValue: rec.Reveal(alg),
+			AnchorFrom: dfrom, AnchorUntil: duntil})
 		if err != nil {
 			t.Fatalf("C08 NewDeactivateRequest refused valid input: %v", err)
 		}
-		steps = append(steps, lifecycleStep{typ: "deactivate", req: dr, doc: map[string]interface{}{}})
+		steps = append(steps, lifecycleStep{typ: "deactivate", req: dr, doc: map[string]interface{}{}, from: dfrom, until: duntil})
 
 		verifyLifecycle(t, p, ns, steps)
 		kinds := ""
